@@ -37,6 +37,7 @@ def handle (line : String) : String :=
   | "linescan" :: rest => Drv.lineScanLine rest
   | "fullparse" :: rest => Drv.fullParseLine rest
   | "fullparser" :: rest => Drv.fullParseRLine rest
+  | "fullrender" :: rest => Drv.fullRenderLine rest
   | "unescape" :: rest => Drv.unescapeLine rest
   | "inline" :: rest => Drv.inlineLine rest
   | "inlinex" :: rest => Drv.inlineXLine rest
